@@ -274,7 +274,7 @@ def mutants(prog):
     sub(cmp_, "nested ors dropped on write", r"                \*\(_serialize_ored\(ored\) for ored in anded\.ors\)\n", "")
     sub(cont, "abstract not written", r'            "abstract": str\(self\.abstract\)\.lower\(\),\n', "")
     sub(cont, "short description of containers dropped", r"        if self\.short_description:\n            sc_attrib\[\"shortDescription\"\] = self\.short_description\n", "")
-    sub(cont, "abstract read case-sensitively", r"\(element\.attrib\['abstract'\]\.lower\(\) == 'true'\)", "(element.attrib['abstract'] == 'True')")
+    sub(cont, "abstract read case-sensitively", r"\(element\.attrib\['abstract'\]\.lower\(\) in \('true', '1'\)\)", "(element.attrib['abstract'] == 'True')")
     sub(cont, "entry order reversed on write", r"for entry in self\.entry_list:\n            if isinstance\(entry, parameters\.Parameter\)", "for entry in reversed(self.entry_list):\n            if isinstance(entry, parameters.Parameter)")
     sub(pt, "unit not written", r"        if self\.unit:\n            param_type_element\.append\(\n                elmaker\.UnitSet\(\n                    elmaker\.Unit\(self\.unit\)\n                \)\n            \)\n\n        param_type_element\.append\(self\.encoding\.to_xml\(elmaker=elmaker\)\)\n        return param_type_element", "        param_type_element.append(self.encoding.to_xml(elmaker=elmaker))\n        return param_type_element")
     sub(pt, "epoch not written", r"            if self\.epoch:\n                reference_time\.append\(\n                    elmaker\.Epoch\(str\(self\.epoch\)\)\n                \)\n", "")
